@@ -272,8 +272,23 @@ def shared_unchanged(eng, st, s):
             continue
         if "@jown" in name or name.endswith("_last_created_trial_id_by_this_process") or name.endswith(".log_number_read"):
             continue
+        if "@glog" in name:
+            continue        # the ghost backend log is not part of the replay result (it grows by the record just written)
         r = z3.Int("su_r")
-        conj.append(qforall([r], z3.Implies(z3.And(0 <= r, r < ctx.pre_nref), arr[r] == a0[r])))
+        conj.append(qforall([r], z3.Implies(z3.And(0 <= r, r < ctx.pre_nref), arr[r] == a0[r]), patterns=[arr[r], a0[r]]))
+    return SV(KBool, z3.And(conj) if conj else z3.BoolVal(True))
+
+
+@R.specfunc()
+def old_float_lists_unchanged(eng, st):
+    ctx = eng.spec_stack[-1]
+    conj = []
+    r = z3.Int("ofl_r")
+    for name, arr in st.heap.items():
+        a0 = ctx.pre_heap.get(name)
+        if a0 is None or z3.eq(a0, arr) or not name.endswith(":list<float>"):
+            continue
+        conj.append(qforall([r], z3.Implies(z3.And(0 <= r, r < ctx.pre_nref), arr[r] == a0[r]), patterns=[arr[r], a0[r]]))
     return SV(KBool, z3.And(conj) if conj else z3.BoolVal(True))
 
 
@@ -425,6 +440,9 @@ R.spec(F, "JournalStorageReplayResult._apply_set_trial_state_values", props=["C0
                "implies(%s != 0, j_trial(self, %s).datetime_complete is parse_dt(rec(log, 'datetime_complete')))" % (STATE, TID),
                "implies(rec(log, 'values') is None, j_trial(self, %s)._values is old(j_trial(self, %s)._values))" % (TID, TID),
                "implies(rec(log, 'values') is not None, values_match(j_trial(self, %s)._values, rec(log, 'values')))" % TID,
+               # the new value list is a fresh object: every float list that existed before is untouched (callers keep what
+               # they know about the list they passed in)
+               "old_float_lists_unchanged()",
                # ownership (private): the issuer of a successful claim owns the trial; nobody else's map changes
                "implies(mine(self, log) and %s == 0, owns(self, %s))" % (STATE, TID),
                "implies(not (mine(self, log) and %s == 0), private_unchanged(self))" % STATE,
@@ -862,7 +880,11 @@ R.spec(JB, "BaseJournalBackend.read_logs", trusted=True, returns_kind="list[dict
        cases=[case("ok", ensures=[
            "fresh(result)", "len(result) == len(self.g_log) - log_number_from",
            "implies(len(result) >= 1, result[0] is self.g_log[log_number_from])",       # ground instance of the next clause
-           "forall(lambda i: implies(0 <= i and i < len(result), result[i] is self.g_log[log_number_from + i]), trigger=result[i])"])],
+           "forall(lambda i: implies(0 <= i and i < len(result), result[i] is self.g_log[log_number_from + i]), trigger=result[i])",
+           "only_fresh_modified()"])],
+       # the returned list is a new object: its heap arrays are in the frame (found by the vacuity probe: without this the
+       # fresh list's contents were pinned to the uninitialised row of the initial heap, contradicting the clauses above)
+       modifies=["L:*:list<dict<str,val>>", "G:is_tuple"],
        note="assumed backend contract: read_logs(k) returns the records k.. in order (JSON round trip value-preserving)")
 
 SYNCED = ["self._replay_result.log_number_read == len(self._backend.g_log)",
